@@ -967,6 +967,97 @@ def run_near_boundary(out, rng):
                 out.problems.append((f"oracle-{name}-float32-logprob-near-boundary", f"{name}: float32 log_prob({a32[r]}) = {lp32[r]!r}, model with the clamp at 1 - {feps32} = {want!r}"))
 
 
+
+# ---------------------------------------------------------------- helpers called with NEW parameters on a USED object; actions exactly at +-1
+def run_helper_reuse(out, rng):
+    """actions_from_params / log_prob_from_params with NEW parameters on a distribution object that already holds OTHER
+    parameters must behave like a fresh object given the new parameters (all six classes); the default of `deterministic`
+    is stochastic sampling"""
+    th, D = _imports()
+
+    def objs():
+        g = D.StateDependentNoiseDistribution(2, squash_output=False)
+        g.proba_distribution_net(latent_dim=2)
+        gs = D.StateDependentNoiseDistribution(2, squash_output=True)
+        gs.proba_distribution_net(latent_dim=2)
+        return {"gauss": D.DiagGaussianDistribution(2), "squashed": D.SquashedDiagGaussianDistribution(2), "categorical": D.CategoricalDistribution(3),
+                "multicat": D.MultiCategoricalDistribution([2, 3]), "bernoulli": D.BernoulliDistribution(3), "gsde": g, "gsde-squash": gs}
+
+    def params(fam, b):
+        if fam in ("gauss", "squashed"):
+            return (t64(th, [[rng.uniform(-2, 2) for _ in range(2)] for _ in range(b)]), t64(th, [rng.uniform(-1, 1) for _ in range(2)]))
+        if fam.startswith("gsde"):
+            return (t64(th, [[rng.uniform(-2, 2) for _ in range(2)] for _ in range(b)]), t64(th, [[rng.uniform(-1, 1) for _ in range(2)] for _ in range(2)]),
+                    t64(th, [[rng.uniform(-2, 2) for _ in range(2)] for _ in range(b)]))
+        n = {"categorical": 3, "multicat": 5, "bernoulli": 3}[fam]
+        return (t64(th, [[rng.uniform(-3, 3) for _ in range(n)] for _ in range(b)]),)
+
+    used, fresh = objs(), objs()
+    for fam in used:
+        A, B = params(fam, 3), params(fam, rng.choice([1, 3, 4]))
+        if fam.startswith("gsde"):
+            for o in (used[fam], fresh[fam]):
+                th.manual_seed(3)
+                o.sample_weights(B[1], batch_size=len(B[0]))
+        used[fam].proba_distribution(*A)
+        used[fam].get_actions()
+        a_used = used[fam].actions_from_params(*B, deterministic=True)
+        a_fresh = fresh[fam].proba_distribution(*B).mode()
+        out.check(a_used.shape == a_fresh.shape and bool(th.equal(a_used, a_fresh)), f"oracle-{fam}-actions-from-params-uses-stale-parameters",
+                  f"{fam}: actions_from_params(NEW parameters, deterministic=True) on an object holding other parameters returned {a_used.tolist()}, a fresh object gives {a_fresh.tolist()}")
+        used[fam].proba_distribution(*A)
+        a2, lp2 = used[fam].log_prob_from_params(*B)
+        if fam in ("squashed",):
+            ref = fresh[fam].proba_distribution(*B).log_prob(a2, used[fam].gaussian_actions)
+        else:
+            ref = fresh[fam].proba_distribution(*B).log_prob(a2)
+        ok = lp2.shape == ref.shape and bool(th.allclose(lp2, ref, rtol=1e-9, atol=1e-9)) if fam != "gsde-squash" else (lp2.shape == ref.shape and bool(th.allclose(lp2, ref, rtol=1e-6, atol=1e-6)))
+        out.check(ok, f"oracle-{fam}-log-prob-from-params-uses-stale-parameters",
+                  f"{fam}: log_prob_from_params(NEW parameters) on an object holding other parameters returned log-probs {lp2.tolist()}, the returned actions have {ref.tolist()} under the new parameters")
+    # default `deterministic` is False: the sample-and-log-prob helpers draw samples (6-sigma frequency test)
+    N = 6000
+    th.manual_seed(11)
+    lg = t64(th, [[0.0, 1.0, -1.0]]).repeat(N, 1)
+    for fam, dist, p1 in (("categorical", D.CategoricalDistribution(3), math.exp(1.0 - o_lse([0.0, 1.0, -1.0]))), ("bernoulli", D.BernoulliDistribution(3), 1 / (1 + math.exp(-1.0))),
+                          ("multicat", D.MultiCategoricalDistribution([3]), math.exp(1.0 - o_lse([0.0, 1.0, -1.0])))):
+        acts, _ = dist.log_prob_from_params(lg)
+        col = acts[:, 1] if fam == "bernoulli" else (acts if fam == "categorical" else acts[:, 0])
+        f = float((col == 1).double().mean())
+        out.check(abs(f - p1) <= 6 * math.sqrt(p1 * (1 - p1) / N), f"oracle-{fam}-helper-does-not-sample", f"{fam}: log_prob_from_params returns action 1 with frequency {f:.4f}, probability {p1:.4f} (helper not sampling?)")
+        acts = dist.actions_from_params(lg)
+        col = acts[:, 1] if fam == "bernoulli" else (acts if fam == "categorical" else acts[:, 0])
+        f = float((col == 1).double().mean())
+        out.check(abs(f - p1) <= 6 * math.sqrt(p1 * (1 - p1) / N), f"oracle-{fam}-helper-does-not-sample", f"{fam}: actions_from_params() returns action 1 with frequency {f:.4f}, probability {p1:.4f}")
+    # actions exactly at +-1 (reachable by tanh saturation): finite, and equal to the model with the clamp at 1 - finfo.eps
+    import numpy as np
+
+    for dtype, feps in ((th.float64, FEPS), (th.float32, float(np.finfo(np.float32).eps))):
+        for sign in (1.0, -1.0):
+            inv = D.TanhBijector.inverse(th.tensor([sign], dtype=dtype))
+            want_u = sign * math.atanh(1 - feps)
+            out.check(bool(th.isfinite(inv).all()) and abs(float(inv[0]) - want_u) <= 1e-3 * abs(want_u), "oracle-tanh-inverse-at-boundary",
+                      f"TanhBijector.inverse({sign}) in {dtype} = {inv.tolist()}, expected atanh(+-(1 - {feps})) = {want_u}")
+            mean, ls = th.tensor([[0.3, -0.2]], dtype=dtype), th.tensor([0.2, -0.1], dtype=dtype)
+            a = th.tensor([[sign, 0.5]], dtype=dtype)
+            sq = D.SquashedDiagGaussianDistribution(2).proba_distribution(mean, ls)
+            lp = float(sq.log_prob(a)[0])
+            want = (o_normal(float(mean[0, 0]), math.exp(float(ls[0])), want_u) - math.log(1 - 1.0 + 1e-6)
+                    + o_normal(float(mean[0, 1]), math.exp(float(ls[1])), math.atanh(0.5)) - math.log(1 - 0.25 + 1e-6))
+            out.check(math.isfinite(lp) and abs(lp - want) <= 2e-3 * abs(want) + 1e-6, "oracle-squashed-logprob-at-boundary",
+                      f"SquashedDiagGaussian.log_prob([{sign}, 0.5]) in {dtype} = {lp!r}, model with the clamp at 1 - finfo.eps = {want!r}")
+            g = D.StateDependentNoiseDistribution(2, squash_output=True)
+            g.proba_distribution_net(latent_dim=1)
+            l_t = th.tensor([[0.0, 0.0]], dtype=dtype)
+            g.sample_weights(l_t, batch_size=1)
+            g.proba_distribution(mean, l_t, th.ones(1, 1, dtype=dtype))
+            lpg = float(g.log_prob(a)[0])
+            sd = math.sqrt(1.0 + 1e-6)
+            ac = 1 - feps
+            wantg = (o_normal(float(mean[0, 0]), sd, want_u) - math.log(1 - ac * ac + 1e-6) + o_normal(float(mean[0, 1]), sd, math.atanh(0.5)) - math.log(1 - 0.25 + 1e-6))
+            out.check(math.isfinite(lpg) and abs(lpg - wantg) <= 2e-3 * abs(wantg) + 1e-6, "oracle-gsde-logprob-at-boundary",
+                      f"gSDE(squash).log_prob([{sign}, 0.5]) in {dtype} = {lpg!r}, model with the clamp at 1 - finfo.eps = {wantg!r}")
+
+
 def run_statistics(out, seed):
     """samples follow the density: 6-sigma moment / frequency tests on fixed configurations"""
     th, D = _imports()
@@ -1166,6 +1257,7 @@ def main():
         run_integrals(glob)
         run_api_audit(glob, chk.rng)
         run_near_boundary(glob, chk.rng)
+        run_helper_reuse(glob, chk.rng)
         run_statistics(glob, chk.seed)
     except Exception as e:
         glob.problems.append(("oracle-global-exception", f"{type(e).__name__}: {e}"))
